@@ -47,6 +47,11 @@ class Pool:
             lines.append('el.add.ee %s %s' % (E(b[i]), E(b[(i * 7 + 3) % len(b)])))
             lines.append('el.double %s' % E(b[i]))
             lines.append('el.smul.Ef %s %x' % (E(b[i]), [R - 1, 2, (R + 1) // 2, 5, gen.rand_field(rng, R)][i % 5]))
+        if build == 'ark' and len(b) >= 3:
+            # multi-scalar results with ALIGNED scalars (all multiples of 16 / of 2^64: windowed and limb-wise algorithms end without a final
+            # addition) and ordinary ones
+            for ks in ([16, 32], [2**64, 3 * 2**64], [0x10, 0x100, 0x1000], [5, 7]):
+                lines.append('el.msm_vartime %s %s' % (';'.join('%x' % k for k in ks), ';'.join(E(b[(3 * j + 1) % len(b)]) for j in range(len(ks)))))
         out = harness.run_script(build, lines)
         self.derived = [parseE(o) for o in out if ',' in o]
         for l, o in zip(lines, out):
@@ -77,7 +82,8 @@ class Pool:
         """structured lists for the list-taking operations (sum, msm, normalize_batch, ...): both identity representatives,
         also rescaled, at every position among points with Z != 1"""
         d = (self.derived or self.base)[:4]; lam = rng.below(Q - 2) + 2
-        return [[T2REP] + d[:2], [d[0], rescale(T2REP, lam), d[1 % len(d)]], [IDENT] + d[:2], [d[0], rescale(IDENT, lam), d[1 % len(d)]], d[:2] + [T2REP],
+        long = [(self.derived + self.base)[i % len(self.derived + self.base)] for i in range(70)]      # longer than any plausible window (64)
+        return [long, long[:65], [IDENT] * 3 + long[:66]] * (1 if rng is not None else 0) + [[T2REP] + d[:2], [d[0], rescale(T2REP, lam), d[1 % len(d)]], [IDENT] + d[:2], [d[0], rescale(IDENT, lam), d[1 % len(d)]], d[:2] + [T2REP],
                 [T2REP, IDENT, d[0]], [rescale(T2REP, lam)] + [rescale(c, lam) for c in d[:2]], [d[0], neg_pt(d[0])], [d[0], t2_translate(neg_pt(d[0])), d[1 % len(d)]]]
 
 def near_miss_strings(rng, valid_s, n_flip=24):
